@@ -36,6 +36,17 @@ theorem consistent_default : consistent defaultEnv = true := by decide +kernel
 /-- the same for `Environment(extra=True)` -/
 theorem consistent_extra : consistent extraEnv = true := by decide +kernel
 
+
+/-- **The grammar model uses the tag names the parse methods use** (`Environment()`): for every
+registered block tag, the set of names extracted from its `parse` source (`parse_block`/`eat_block`
+end tuples, `expect`, `is_tag`, comparisons with `stream.current.value`) equals the model frame's
+end tag + inner tags; inline tags look for no other tag than themselves.  Together with
+`consistent_default` this compares the audit's tables with what the *parsers* accept. -/
+theorem parser_names_agree_default : parserAgrees defaultEnv defaultParserNames = true := by decide +kernel
+
+/-- the same for `Environment(extra=True)` -/
+theorem parser_names_agree_extra : parserAgrees extraEnv extraParserNames = true := by decide +kernel
+
 /-! ## Sentence 2 — a source that parses in strict mode is reported clean -/
 
 /-- **Full statement, refuted on this tree (1/2)**: `{% break %}` alone parses in strict mode and is
